@@ -78,6 +78,23 @@ func (sc *Scope) call(e ECall) Val {
 			sc.fail("abytes needs a byte array location")
 		}
 		return Val{T: x.bstrOf(sc.st, sx("mk_slice", loc, c.idx(0), c.idx(int64(n)), c.idx(int64(n)))), Ty: types.Typ[types.String]}
+	case "recorded":
+		// recorded("name"): the result most recently returned by a callee whose contract says "option records name"
+		argN(1)
+		l, ok := e.Args[0].(ELit)
+		if !ok || l.Kind != "string" {
+			sc.fail("recorded expects a string literal")
+		}
+		name, _ := strconv.Unquote(l.Val)
+		rt, ok := x.recTypes[name]
+		if !ok {
+			sc.fail("nothing is recorded under %q on any path to this point", name)
+		}
+		t := x.get(sc.st, "g:rec:"+name+"|"+c.sortOf(rt))
+		if isBool(rt) {
+			return boolVal(t)
+		}
+		return Val{T: t, Ty: rt}
 	case "lastnow":
 		// lastnow(): the value returned by the most recent time.Now() call on this path
 		argN(0)
